@@ -455,3 +455,159 @@ Section BytePred.
     destruct (cstack false x); [repeat constructor; assumption|exact Hj].
   Qed.
 End BytePred.
+
+(* ------------------------------------------------------------------ Abs (Clean p) = Abs p *)
+
+Definition kept (g : list Z) : Prop := no47 g /\ keeps g = true.
+
+Lemma keeps_cstep root st g : keeps g = true -> is_dd g = false -> cstep root st g = g :: st.
+Proof.
+  unfold keeps, cstep. intros Hk Hd. apply negb_true_iff in Hk. now rewrite Hk, Hd.
+Qed.
+
+Lemma cstep_kept root st g : Forall kept st -> no47 g -> Forall kept (cstep root st g).
+Proof.
+  intros Hst Hg. unfold cstep. destruct (is_nil g || is_dot g) eqn:E; [exact Hst|].
+  assert (Hk : kept g) by (split; [exact Hg|unfold keeps; now rewrite E]).
+  destruct (is_dd g).
+  - destruct st as [|top rest]; [destruct root; [constructor|now constructor]|].
+    destruct (is_dd top); [now constructor|now inversion Hst].
+  - now constructor.
+Qed.
+
+Lemma cfold_kept root segs : Forall no47 segs -> forall st, Forall kept st -> Forall kept (fold_left (cstep root) segs st).
+Proof.
+  intros H. induction H as [|g segs Hg Hs IH]; intros st Hst; [exact Hst|]. cbn [fold_left]. apply IH. now apply cstep_kept.
+Qed.
+
+(* in a rooted stack nothing is ".." *)
+Lemma cstep_true_nodd st g : existsb is_dd st = false -> existsb is_dd (cstep true st g) = false.
+Proof.
+  intros Hst. unfold cstep. destruct (is_nil g || is_dot g); [exact Hst|].
+  destruct (is_dd g) eqn:Ed.
+  - destruct st as [|top rest]; [reflexivity|]. cbn [existsb] in Hst. apply orb_false_iff in Hst.
+    destruct Hst as [Ht Hr]. now rewrite Ht.
+  - cbn [existsb]. now rewrite Ed.
+Qed.
+
+Lemma cfold_true_nodd segs : forall st, existsb is_dd st = false -> existsb is_dd (fold_left (cstep true) segs st) = false.
+Proof. induction segs as [|g segs IH]; intros st H; [exact H|]. cbn [fold_left]. apply IH. now apply cstep_true_nodd. Qed.
+
+Lemma cstep_skip root st g : is_nil g || is_dot g = true -> cstep root st g = st.
+Proof. intros E. unfold cstep. now rewrite E. Qed.
+
+Lemma cstep_dd_nil root g : is_nil g || is_dot g = false -> is_dd g = true ->
+  cstep root [] g = if root then [] else [g].
+Proof. intros E Ed. unfold cstep. now rewrite E, Ed. Qed.
+
+Lemma cstep_dd_cons root top rest g : is_nil g || is_dot g = false -> is_dd g = true ->
+  cstep root (top :: rest) g = if is_dd top then g :: top :: rest else rest.
+Proof. intros E Ed. unfold cstep. now rewrite E, Ed. Qed.
+
+Lemma cstep_push root st g : is_nil g || is_dot g = false -> is_dd g = false -> cstep root st g = g :: st.
+Proof. intros E Ed. unfold cstep. now rewrite E, Ed. Qed.
+
+(* replaying the relative stack (bottom first) on an absolute stack = processing the element there *)
+Lemma replay_step st g S0 : Forall kept st ->
+  fold_left (cstep true) (rev (cstep false st g)) S0 = cstep true (fold_left (cstep true) (rev st) S0) g.
+Proof.
+  intros Hst. destruct (is_nil g || is_dot g) eqn:E.
+  - now rewrite !cstep_skip by exact E.
+  - destruct (is_dd g) eqn:Ed.
+    + destruct st as [|top rest].
+      * rewrite cstep_dd_nil by assumption. reflexivity.
+      * rewrite cstep_dd_cons by assumption. destruct (is_dd top) eqn:Et.
+        -- change (rev (g :: top :: rest)) with (rev (top :: rest) ++ [g]). now rewrite fold_left_app.
+        -- cbn [rev]. rewrite fold_left_app. cbn [fold_left].
+           inversion Hst as [|? ? [_ Hk] _]; subst.
+           rewrite (keeps_cstep true _ top Hk Et). rewrite cstep_dd_cons by assumption. now rewrite Et.
+    + rewrite (cstep_push false) by assumption.
+      change (rev (g :: st)) with (rev st ++ [g]). now rewrite fold_left_app.
+Qed.
+
+Lemma replay segs : Forall no47 segs -> forall st S0, Forall kept st ->
+  fold_left (cstep true) (rev (fold_left (cstep false) segs st)) S0 =
+  fold_left (cstep true) segs (fold_left (cstep true) (rev st) S0).
+Proof.
+  intros H. induction H as [|g segs Hg Hs IH]; intros st S0 Hst; [reflexivity|].
+  cbn [fold_left]. rewrite IH by (now apply cstep_kept). now rewrite replay_step.
+Qed.
+
+Lemma kept_no47 st : Forall kept st -> Forall no47 st.
+Proof. intros H. apply Forall_forall. intros g Hg. rewrite Forall_forall in H. now apply H. Qed.
+
+Lemma join47_not_rooted segs : segs <> [] -> Forall kept segs -> rooted (join47 segs) = false.
+Proof.
+  intros Hne H. destruct H as [|g r [Hg Hk] Hr]; [contradiction|].
+  assert (E : exists c t, g = c :: t /\ c <> 47).
+  { unfold keeps, is_nil in Hk. destruct g as [|c t]; [discriminate|]. exists c, t. split; [reflexivity|]. now inversion Hg. }
+  destruct E as (c & t & -> & Hc). destruct r; cbn [join47 app rooted]; now apply Z.eqb_neq.
+Qed.
+
+Lemma clean_rel_form p : rooted p = false ->
+  rooted (clean p) = false /\
+  forall S0, fold_left (cstep true) (split47 (clean p)) S0 = fold_left (cstep true) (split47 p) S0.
+Proof.
+  intros Hp. unfold clean. rewrite Hp.
+  assert (Hk : Forall kept (cstack false p)) by (apply cfold_kept; [apply split47_segs_no47|constructor]).
+  pose proof (replay (split47 p) (split47_segs_no47 p) [] ) as Hr. cbn [rev fold_left] in Hr. fold (cstack false p) in Hr.
+  destruct (cstack false p) as [|g st] eqn:E.
+  - split; [reflexivity|]. intros S0. rewrite <- (Hr S0 (Forall_nil _)). reflexivity.
+  - assert (Hrk : Forall kept (rev (g :: st))) by (now apply Forall_rev).
+    assert (Hne : rev (g :: st) <> []) by (cbn [rev]; intros Hx; now apply app_eq_nil in Hx as [_ Hx]).
+    split; [now apply join47_not_rooted|]. intros S0.
+    rewrite split47_join47 by (try assumption; now apply kept_no47). now apply Hr.
+Qed.
+
+Lemma existsb_false_rev {A} (f : A -> bool) l : existsb f l = false -> existsb f (rev l) = false.
+Proof.
+  intros H. destruct (existsb f (rev l)) eqn:E; [|reflexivity]. apply existsb_exists in E.
+  destruct E as (x & Hx & Hf). apply in_rev in Hx.
+  assert (existsb f l = true) by (apply existsb_exists; now exists x). congruence.
+Qed.
+
+Lemma forallb_filter_same {A} (f : A -> bool) l : forallb f l = true -> filter f l = l.
+Proof.
+  induction l as [|x l IH]; [reflexivity|]. cbn [forallb filter]. intros H. apply andb_true_iff in H.
+  destruct H as [Hx Hl]. now rewrite Hx, IH.
+Qed.
+
+Lemma clean_rooted_form p : rooted p = true -> clean p = 47 :: join47 (rev (cstack true p)).
+Proof. intros Hp. unfold clean. now rewrite Hp. Qed.
+
+Lemma cstack_rooted_join R : Forall kept R -> existsb is_dd R = false ->
+  cstack true (47 :: join47 (rev R)) = R.
+Proof.
+  intros Hk Hd. unfold cstack. cbn [split47]. rewrite Z.eqb_refl. cbn [fold_left].
+  rewrite (cstep_skip true [] []) by reflexivity.
+  destruct R as [|g st].
+  - reflexivity.
+  - assert (Hrk : Forall kept (rev (g :: st))) by (now apply Forall_rev).
+    assert (Hne : rev (g :: st) <> []) by (cbn [rev]; intros Hx; now apply app_eq_nil in Hx as [_ Hx]).
+    rewrite split47_join47 by (try assumption; now apply kept_no47).
+    rewrite cstack_no_dd by (now apply existsb_false_rev).
+    assert (Hf : filter keeps (rev (g :: st)) = rev (g :: st)).
+    { apply forallb_filter_same. apply forallb_forall. intros x Hx. rewrite Forall_forall in Hrk. now apply Hrk. }
+    now rewrite Hf, rev_involutive, app_nil_r.
+Qed.
+
+Lemma clean_idem_rooted p : rooted p = true -> clean (clean p) = clean p.
+Proof.
+  intros Hp. rewrite (clean_rooted_form p Hp). set (R := cstack true p).
+  assert (Hk : Forall kept R) by (apply cfold_kept; [apply split47_segs_no47|constructor]).
+  assert (Hd : existsb is_dd R = false) by (apply cfold_true_nodd; reflexivity).
+  rewrite clean_rooted_form by (cbn [rooted]; apply Z.eqb_refl).
+  now rewrite cstack_rooted_join.
+Qed.
+
+(* filepath.Abs(filepath.Clean(p)) = filepath.Abs(p) *)
+Theorem abs_clean cwd p : rooted cwd = true -> abs cwd (clean p) = abs cwd p.
+Proof.
+  intros Hc. unfold abs. destruct (rooted p) eqn:Hp.
+  - assert (Hr : rooted (clean p) = true) by (unfold clean; rewrite Hp; cbn [rooted]; apply Z.eqb_refl).
+    rewrite Hr. now apply clean_idem_rooted.
+  - destruct (clean_rel_form p Hp) as [Hr Hf]. rewrite Hr.
+    rewrite (clean_rooted_form (cwd ++ 47 :: clean p)) by (now apply rooted_app).
+    rewrite (clean_rooted_form (cwd ++ 47 :: p)) by (now apply rooted_app).
+    rewrite !cstack_app. now rewrite Hf.
+Qed.
